@@ -280,6 +280,13 @@ theorem link_step (s s' : St) (e : Ev) (ms : C04St) (hl : LinkA s ms) (ha : AllR
       · simp at hs; subst hs; exact ⟨ms, rfl, hl.frame rfl rfl⟩
       all_goals cases hs
     · cases hs
+  | envErr a e0 =>
+    simp only [step, stepI] at hs
+    split at hs
+    · split at hs
+      · simp at hs; subst hs; exact ⟨ms, rfl, hl.frame rfl rfl⟩
+      all_goals cases hs
+    · cases hs
   | giveUp n =>
     simp only [step, stepI] at hs
     split at hs
